@@ -1186,7 +1186,7 @@ class MatrixVectorProduct(VectorExpression):
         matrix: np.ndarray,
         vector: VectorVariable | VectorExpression,
     ) -> None:
-        matrix = np.asarray(matrix)
+        matrix = np.array(matrix)  # private copy (see LinearCombination)
         if matrix.ndim != 2:
             raise WrongDimensionalityError(
                 context="matrix-vector product",
@@ -1282,7 +1282,7 @@ class QuadraticForm(Expression):
         vector: VectorVariable | VectorExpression,
         matrix: np.ndarray,
     ) -> None:
-        matrix = np.asarray(matrix)
+        matrix = np.array(matrix)  # private copy (see LinearCombination)
         if matrix.ndim != 2:
             raise WrongDimensionalityError(
                 context="quadratic form",
